@@ -1,5 +1,6 @@
 import os
 
+from trashcli.lib.trash_dir_reader import is_trashinfo_name
 from trashcli.restore.file_system import ListingFileSystem
 
 
@@ -14,7 +15,7 @@ class InfoFiles:
         info_dir = os.path.join(norm_path, 'info')
         try:
             for info_file in self.fs.list_files_in_dir(info_dir):
-                if not os.path.basename(info_file).endswith('.trashinfo'):
+                if not is_trashinfo_name(os.path.basename(info_file)):
                     yield ('non_trashinfo', info_file)
                 else:
                     yield ('trashinfo', info_file)
